@@ -399,7 +399,7 @@ def translate (c : Ctx) (post : Bool) (nodes : Array Node) (twinOf : Nat → Opt
             | [_, .reg bn brt bsz .., .reg cn crt csz ..] => bn == cn && brt == crt && bsz == csz
             | _ => sameRegs
           if srcSame && sameRegZero n.name then { t with reads := if covers then [] else [l0], key := t.key ++ ["zero"] }
-          else if sameRegs && sameRegKeep n.name && !extendsLive then { t with writes := t.writes.filter (· != l0), key := t.key ++ ["keep"] }
+          else if sameRegs && n.ops.length == 2 && sameRegKeep n.name && !extendsLive then { t with writes := t.writes.filter (· != l0), key := t.key ++ ["keep"] }
           else if n.name == "or" && imm1 == some "-1" && covers then { t with reads := t.reads.filter (· != l0), key := t.key ++ ["ones"] }
           else if imm1 == some "0" && immZeroKeep n.name && !extendsLive then { t with writes := t.writes.filter (· != l0), key := t.key ++ ["keep"] }
           else t
@@ -492,9 +492,9 @@ def translate (c : Ctx) (post : Bool) (nodes : Array Node) (twinOf : Nat → Opt
           -- inserted by the allocator
           if n.name == "xchg" then
             match n.ops with
-            | [.reg an .., .reg bn ..] =>
+            | [.reg an _ asz .., .reg bn _ bsz ..] =>
               match physLoc an, physLoc bn with
-              | some a, some b => inst := .swap a b
+              | some a, some b => inst := .swap a b (min asz bsz)
               | _, _ => throw "unsupported xchg"
             | _ => throw "unsupported inserted xchg with memory"
           else match shapeMove with
@@ -540,7 +540,7 @@ def succs (c : Ctx) (pre post : Prog2) (p q : Nat) (E : Rel) : Except String (Li
     else if tQ == 0 then
       match iQ with
       | .move d s sz => .ok ([(p, q + 1, moveE c.vsz E d s sz)], true)
-      | .swap a b => .ok ([(p, q + 1, swapE E a b)], true)
+      | .swap a b sz => .ok ([(p, q + 1, swapE c.vsz E a b sz)], true)
       | .jmp t => .ok ([(p, t, E)], true)
       | .op _ _ ws cs false false => .ok ([(p, q + 1, kill E (ws ++ cs) [])], true)
       | _ => .error s!"inserted instruction of unexpected kind at {q}"
